@@ -214,7 +214,7 @@ def run_case(case):
     parts = None
     if part:
         if isinstance(model, scared.HammingWeight):
-            parts = [list(range(9)), [8, 0, 3, 5, 1, 2, 4, 6, 7], list(range(12))][int(rng.integers(3))]
+            parts = [list(range(9)), [8, 0, 3, 5, 1, 2, 4, 6, 7], list(range(12)), list(range(1, 7)), [2, 3, 4, 5]][int(rng.integers(5))]     # the last two leave values out
         else:
             parts = list(range(256))
     # transformed whole set (oracle side): frame first, then the chain in list order
